@@ -458,7 +458,7 @@ class Out:
             body = build()
             self.lines.append(f"def {name} {sig} : {ret} :=\n  {body}\n")
             self.meta[name] = {"mode": "translated"}
-        except (Untr, NotConst, RecursionError, KeyError, IndexError, AttributeError, TypeError, ValueError) as exc:
+        except Exception as exc:  # noqa: BLE001 - never let the extractor die: an unreadable part becomes an opaque stand-in
             self.lines.append(f"-- untranslatable: {name}: {type(exc).__name__}")
             self.lines.append(f"def {name} {sig} : {ret} :=\n  {opaque}\n")
             self.meta[name] = {"mode": "untranslatable", "reason": f"{type(exc).__name__}: {exc}"}
@@ -902,7 +902,7 @@ def register_funs(out, tree, misc_tree):
                          f"  | [] => {none_t}\n"
                          f"  | alt :: tl => {step_t}\n")
         out.meta["altSel"] = {"mode": "translated"}
-    except (Untr, NotConst, KeyError, IndexError, AttributeError, TypeError, ValueError, RecursionError) as exc:
+    except Exception as exc:  # noqa: BLE001
         out.lines.append("-- untranslatable: altSel")
         out.lines.append("def altSel (width cnt : Int) : List Int → Int\n  | _ => (-1 : Int)\n")
         out.meta["altSel"] = {"mode": "untranslatable", "reason": f"{type(exc).__name__}: {exc}"}
